@@ -8,6 +8,12 @@ CLAIMED = {
     "C03": ("kani", "bounded model checking (Kani/CBMC): component-level binding and no-ignored-payload obligations over symbolic proof components",
             "every sub-parser consumes its encoding completely, leaves are recomputed from opened values, Merkle openings bind claimed leaves (injective transparent hash) and carry no unused payload; decided per component for all symbolic payloads within the stated sizes",
             K_NOTE + "; whole-proof bit flips through verify() and the FRI-remainder substitution are outside (see DESIGN C03/C05)", "DESIGN.md §2 C03"),
+    "C04": ("kani", "bounded model checking (Kani/CBMC): a transparent recording coin is substituted for the RandomCoin type parameter of the real ProverChannel / fri prover channel / FriProver::build_layers / FriVerifier::new; messages symbolic",
+            "channel layer: the coin is seeded with H(context || public inputs); every commit_*/send_* absorbs exactly its message, in order, before the next draw; the grinding nonce meets the factor and is the one used for the query positions and stored in the proof; the proof carries exactly the absorbed commitments and OOD values; FRI prover/verifier absorb each layer commitment before drawing its alpha; every trace-metadata byte reaches the seed",
+            K_NOTE + "; toy AIR and toy field; the ORDER OF STEPS inside Prover::generate_proof and verifier::perform_verification (whole-run behaviour) is outside the claim", "DESIGN.md §2 C04"),
+    "C05": ("kani", "bounded model checking (Kani/CBMC) of the real FriVerifier on honest toy proofs produced natively by the real FriProver; one proof component per harness symbolic, injected late through a wrapper channel",
+            "deterministic enforcement only: accepted => the remainder is the committed one; accepted <=> (remainder within the degree bound and agreeing with the last folded evaluations at every queried position) for a prover that commits to another remainder; accepted => claimed evaluations equal the committed layer values; accepted => every queried cell of every layer equals the folding of the previous layer -- for all values of the symbolic component on each enumerated parameter set",
+            K_NOTE + "; F_257 / PairHash128 / CtrCoin instantiation; probabilistic soundness (far-from-low-degree functions are rejected with high probability) is outside any solver's reach and NOT claimed; parameter sets enumerated in vf/gen/c05.py", "DESIGN.md §2 C05"),
     "C06": ("kani", "bounded model checking (Kani/CBMC) of the real deserializers and second-stage parsers over symbolic byte buffers",
             "every byte string up to the stated buffer bound (first stage) and every payload for each enumerated length/count layout (second stage) is decided against Kani's panic/overflow/bounds checks",
             K_NOTE + "; hashers inside parsers replaced by a harness mixer; verify() past channel construction outside the claim", "DESIGN.md §2 C06"),
@@ -23,9 +29,9 @@ CLAIMED = {
     "C10": ("kani", "bounded model checking (Kani/CBMC) with an injective transparent hasher: positive (prove->verify) and binding (accept => committed leaves, no surplus payload) obligations",
             "for trees of 4/8(/16) leaves and enumerated position lists and opening shapes, for all symbolic digests: honest openings verify and decompress; an accepted opening claims exactly the committed leaves and has the honest shape",
             K_NOTE + "; PairHash (free-algebra model of a collision-resistant hash) inside its width budget; std BTreeMap replaced by a sorted-Vec map under cfg(winterfell_verif); symbolic positions outside", "DESIGN.md §2 C10"),
-    "C11": ("mir-smt", "MIR -> SMT for the MDS kernels (all 2^(32*12) limb states, integer encoding)",
-            "frequency-domain MDS multiplication (12x12, 8x8) has no intermediate overflow and equals the circulant matrix product for every state; canonicity after the round-constant addition",
-            "only the MDS fast path and ARK bounds are decided; sponge padding/encoding, S-box chains and Blake3/SHA3 wrappers are outside this check", "DESIGN.md §2 C11"),
+    "C11": ("mir-smt+kani", "MIR -> SMT for the MDS kernels (all 2^(32*12) limb states, integer encoding); bounded model checking (Kani/CBMC) of the sponge byte/element encoding with the permutation stubbed by a transparent recorder",
+            "frequency-domain MDS multiplication (12x12, 8x8) has no intermediate overflow and equals the circulant matrix product for every state; byte hashing of Rp64_256 / Rp62_248 / RpJive64_256 is total for every length up to the bound and (Rp64_256, RpJive64_256) injective on the sequence of absorbed states (length and trailing zeros distinguished); merge == hash_elements of the concatenation; merge_with_int injective in the integer over all 64-bit values",
+            "Engine M: rustc MIR dump, own translator, z3/cvc5; Engine K: " + K_NOTE + "; the Rescue permutation itself (S-box chains, rounds) against a reference, Blake3/SHA3 (external crates) and their wrappers are outside; BaseElement::new stubbed by the identity embedding of v mod M in the encoding harnesses", "DESIGN.md §2 C11"),
     "C12": ("kani", "bounded model checking (Kani/CBMC) of encode->decode round trips over symbolic constructor arguments",
             "for every value the public constructors accept (arguments symbolic under the documented preconditions) decode(encode(x)) == x and the reader is exhausted; collection sizes enumerated and small",
             K_NOTE + "; field-element encodings (Montgomery maps) decided under C07", "DESIGN.md §2 C12"),
